@@ -28,15 +28,13 @@ MANIFEST = {
             "worker are proved; the composition over thread schedules rests on stated assumptions about queue.Queue and deque plus a pigeonhole lemma "
             "checked by Lean (lemmas/C41Composition.lean), so the level is 'other'.  Bounded stand-in: systematic exploration of every schedule of the real function at its synchronisation points "
             "for 0..3 items x 1..3 threads (quick: 0..2 x 1..2 plus seeded samples) with workers that return a value, None or a generator.",
-    "note": "Assumed: queue.Queue linearizable multi-consumer FIFO; deque.append/extend atomic (GIL); threads=0 with a non-empty input is outside "
-            "the property (no worker exists); an input iterable that raises is outside the property; context switches between synchronisation "
+    "note": "Assumed: queue.Queue linearizable multi-consumer FIFO; deque.append/extend atomic (GIL); an input iterable that raises is outside the property; context switches between synchronisation "
             "points do not matter because all shared state is reached through them.",
 }
 ASSUMPTIONS = [
     "queue.Queue is a linearizable FIFO: each put entry is returned by exactly one get, in put order",
     "deque.append / deque.extend are atomic with respect to other threads",
     "the functor consumes the iterator it is given (the 'worker function' of the statement is applied to what it takes from it)",
-    "number of threads >= 1 whenever the input is non-empty",
 ]
 
 ITEM = KRef("QueueEntry")
@@ -275,8 +273,7 @@ def t_feeder(ex):
     g = Ghost(ex)
     n = KInt.fresh("n_items")
     ex.assume(n >= 0)
-    threads_arg = KInt.fresh("threads")
-    ex.assume(threads_arg >= 1)
+    threads_arg = KInt.fresh("threads")     # any integer: a pool asked for with 0 or fewer threads still has to process the input
     items = SEQ.fresh("items")
     ex.assume(items.length() == n)
 
@@ -345,7 +342,7 @@ def t_feeder(ex):
     ex.oblige(f"{P}.ensures.every_item_put_exactly_once_in_order", g.items_put == n)
     ex.oblige(f"{P}.ensures.one_end_marker_per_started_thread", And(g.sentinels_put == g.started, g.started == g.created))
     ex.oblige(f"{P}.ensures.at_least_one_thread_when_there_is_an_item", Implies(n >= 1, g.started >= 1))
-    ex.oblige(f"{P}.ensures.no_more_threads_than_asked_for", g.started <= threads_arg)
+    ex.oblige(f"{P}.ensures.no_more_threads_than_asked_for", Or(g.started <= threads_arg, g.started <= 1))
     ex.oblige(f"{P}.ensures.every_thread_joined_before_returning", g.joined == g.started)
     ex.oblige(f"{P}.ensures.returns_the_deque_the_workers_fill", out.value is pr["results"])
     ex.oblige(f"{P}.ensures.kill_flag_untouched_on_the_normal_path", not g.kill_set)
@@ -474,6 +471,7 @@ def mk_enum(kind):
         from contracts import sched_explore as S
         thorough = os.environ.get("VERIF_TIER") == "thorough"
         confs = [(n, th, True, 2) for n in (0, 1, 2) for th in (1, 2)] + [(1, 2, False, 2), (0, 2, False, 2)]
+        confs += [(2, 0, True, 1), (1, -1, True, 1), (2, 0, False, 1), (0, 0, True, 1)]     # a pool asked for with no threads at all
         if thorough:
             confs += [(3, 2, True, 2), (2, 2, True, 3), (3, 3, True, 1), (2, 3, False, 1)]
         fails, runs = [], 0
@@ -495,7 +493,7 @@ def mk_enum(kind):
                 break
         return {"name": f"C41.schedules[worker returns {kind}]",
                 "bound": "every schedule of the real map_async at its synchronisation points with <= 2 preemptions for 0..2 items x 1..2 threads "
-                         "(sized and unsized input), 2 x 2 with a keyword argument (1 preemption)" + ("; 3 items x 2 threads (2 preemptions), 2 x 2 (3 preemptions), 3 x 3 and unsized 2 x 3 (1 preemption)" if thorough else "")
+                         "(sized and unsized input), 2 x 2 with a keyword argument (1 preemption), 0..2 items with 0 / -1 threads asked for" + ("; 3 items x 2 threads (2 preemptions), 2 x 2 (3 preemptions), 3 x 3 and unsized 2 x 3 (1 preemption)" if thorough else "")
                          + f"; {1500 if thorough else 150} seeded random schedules for 2..5 items x 2..4 threads",
                 "cases": runs, "failures": fails[:5]}
     return enum
@@ -510,3 +508,21 @@ def tasks():
         Task("C41.regen_iter", t_regen_iter, [("src/pkgcore/operations/regen.py", "regen_iter")]),
     ] + [Task(f"C41.schedules.{k}", None, [(TP, "map_async")], enumerate=mk_enum(k)) for k in ("generator", "list", "none")] + [
     ]
+
+
+# ---------------------------------------------------------------- replay ----
+def replay_feeder(model):
+    """the real map_async with the model's item count and thread count: every item must reach the worker function exactly once"""
+    import pkgcore.util.thread_pool as tp
+    n, th, sized = max(0, min(int(model.get("n_items", 0)), 50)), max(-5, min(int(model.get("threads", 1)), 8)), bool(model.get("sized", True))
+    seen = []
+
+    def functor(it_, *a, **k):
+        for x in it_:
+            seen.append(x)
+    items = list(range(n))
+    tp.map_async(items if sized else iter(items), functor, threads=th)
+    return sorted(seen) != items, f"map_async over {n} items ({'sized' if sized else 'unsized'} input) with threads={th}: the worker function saw {sorted(seen)}"
+
+
+REPLAY = {"C41.map_async": replay_feeder}
